@@ -273,7 +273,7 @@ def decide(ck, c, ir, mr, stats, engine="memory"):
         kind = "panic" if (ist.startswith("panic") or "operator panicked" in ist or "builder panicked" in ist) else "error"
         what = ist
         mech = ("column-not-found" if "not found from input" in ist else
-                "apply-not-rewritten" if "Apply is not supported" in ist else
+                "apply-not-rewritten" if ("Apply is not supported" in ist or 'Unavailable("apply")' in ist) else
                 "unwrap-none" if "Option::unwrap()" in ist else "other")
         ck.report("exec:%s/%s" % (kind, mech), "statement fails instead of answering (%s): %s" % (what[:120], c["sql"]), replay=rep)
         return
@@ -367,7 +367,7 @@ def decide(ck, c, ir, mr, stats, engine="memory"):
 
 
 def run(ck):
-    n = 500 if ck.quick() else 10000
+    n = 500 if ck.quick() else 8000
     bad = vlib.step_lean(ck, "RlModel.Thm.C02", THEOREMS, extra_targets=["drv_c02"])
     ok, log = vlib.step_cargo(ck, ["c02"])
     if not ok:
